@@ -64,6 +64,29 @@ def judge(case):
     except Exception as err:  # pylint: disable=broad-except
         out.bad("valid-frame-rejected", f"{name}: parse(reference frame, {len(want)} B) raises "
                 f"{type(err).__name__}: {err}")
+    # a message obtained from a frame with a WRONG trailer (validation off) must still serialise
+    # canonically: the checksum is computed, never carried over from the wire
+    try:
+        import io  # pylint: disable=import-outside-toplevel
+
+        for trailer in (b"\x00\x00\x00", bytes(b ^ 0x5A for b in want[-3:])):
+            if trailer == want[-3:]:
+                continue
+            bad = want[:-3] + trailer
+            m0 = RTCMReader.parse(bad, validate=0)
+            if m0.serialize() != want:
+                out.bad("serialize-noncanonical:crc-carried-over",
+                        f"{name}: parse(frame with trailer {trailer.hex()}, validate=0).serialize() "
+                        f"ends in {m0.serialize()[-3:].hex()}, CRC-24Q is {want[-3:].hex()}")
+                break
+            rd = RTCMReader(io.BytesIO(bad), validate=0, quitonerror=0)
+            _raw, m1 = rd.read()
+            if m1 is None or m1.serialize() != want:
+                out.bad("serialize-noncanonical:crc-carried-over",
+                        f"{name}: reader(validate=0) message serialises non-canonically")
+                break
+    except Exception as err:  # pylint: disable=broad-except
+        out.bad("validate-off-rejects", f"{name}: {type(err).__name__}: {err}")
     try:
         clone = eval(repr(msg), {"RTCMMessage": RTCMMessage, "__builtins__": {}})  # pylint: disable=eval-used
         if clone.payload != payload:
@@ -120,6 +143,16 @@ def cases(tier):
     for it in corpus.build(tier):
         yield {"name": it["name"], "payload": it["payload"], "must_parse": it["kind"] != "fail"}
     yield from steered()
+    # payloads whose frame has CRC-24Q exactly 000000 (a legitimate value, not a sentinel)
+    for ln in (5, 6, 8, 21, 64, 255, 256, 700, 1023):
+        for num in (999, 1005, 2000):
+            body = ((num << 4) & 0xFFFF).to_bytes(2, "big") + fp[: ln - 5]
+            hdr = b"\xd3" + ln.to_bytes(2, "big")
+            tail = pinned.crc24q_table(hdr + body).to_bytes(3, "big")
+            payload = body + tail
+            if pinned.crc24q_table(hdr + payload) != 0:
+                raise core.Broken("zero-CRC payload construction failed")
+            yield {"name": f"zerocrc{num}/{ln}", "payload": payload, "must_parse": num != 1005}
 
 
 def _work(chunk):
